@@ -325,3 +325,44 @@ def int_conversions(F):
             yield inst, f, False, bad
         else:
             yield inst, f, True, "the 32 bytes are the little-endian bytes of the %d-bit argument followed by zeros" % w
+
+
+def bits_le(F):
+    """(ok|None, msg): Scalar::bits_le in the bit-provenance domain: the iterator yields exactly 256 items and item i is input bit i
+    (bit i & 7 of byte i >> 3).  None = outside the domain"""
+    from absint_models import Models
+    fs = [f for f in F.fns.values() if "mir" in f and f["kind"] != "Closure" and re.search(r"scalar::Scalar::bits_le$", f["path"])]
+    if len(fs) != 1:
+        return None, "bits_le not found"
+    f = fs[0]
+    sc = ("st", (("arr", tuple(B.input_byte(k) for k in range(32))),))
+    try:
+        ret, ip, root = B.run(F, f, [sc])
+    except Exception as e:
+        return None, "analysis failed: %r" % (e,)
+    M = ip.models
+    from absint import State as _State
+    it = M.as_it(ip, _State([root]), ip.deconst(ret)) if ret is not None else None
+    if it is None or it[0] != "it":
+        return None, "the returned iterator is outside the domain"
+    from absint import State
+    st_ = State([root])
+    cur, k = it, 0
+    for k in range(257):
+        try:
+            item, new = M.step(ip, st_, cur)
+        except Exception as e:
+            return None, "the iterator could not be stepped: %r" % (e,)
+        if item[0] != "en" or len(item[1]) != 1:
+            return None, "item %d is outside the domain" % k
+        if item[1][0][0] == 0:
+            break
+        x = ip.deconst(item[1][0][1][0])
+        if not (x[0] == "bv" and len(x[1]) == 1):
+            return None, "item %d is not a single bit in the domain" % k
+        if x[1][0] != ("b", k):
+            return False, "item %d of bits_le is %s, expected input bit %d" % (k, x[1][0], k)
+        cur = new if new is not None else cur
+    if k != 256:
+        return False, "bits_le yields %d items, expected 256" % k
+    return True, "bits_le yields 256 items, item i = bit (i & 7) of byte (i >> 3)"
